@@ -103,10 +103,18 @@ def run_refusal_oracle(outcome, tier, seed):
             plans.append(("root", repr(t), fmt, len(reqs), None))
             reqs.append({"id": len(reqs), "to": "toml", "calls": [{"input": shared.hx(t), "from": fmt, "mode": mode}]})
     # (c) accepted documents read back; second document / second input refused
+    firsts = []
+    # documents that serialize to (almost) nothing: an empty table must still count as the one document
+    for fmt, v0, t0 in (("json", {}, b"{}"), ("yaml", {}, b"{}\n"), ("msgpack", {}, b"\x80"), ("toml", {}, b""),
+                        ("toml", {}, b"# only a comment\n"), ("json", {"a": {}}, b'{"a":{}}'), ("msgpack", {"a": {}}, b"\x81\xa1a\x80")):
+        d2 = history.make_doc(rng, fmt if fmt != "toml" else "json", depth=1, root="map")
+        firsts.append((fmt, (v0, t0), d2))
     for _ in range(n * 2):
         fmt = rng.choice(["json", "yaml", "msgpack", "toml"])
         d = history.make_doc(rng, fmt, profile="toml" if fmt == "toml" else "common", depth=rng.choice([1, 2, 3, 4]), root="map")
         d2 = history.make_doc(rng, fmt if fmt != "toml" else "json", depth=1, root="map")
+        firsts.append((fmt, d, d2))
+    for fmt, d, d2 in firsts:
         if not d or not d2:
             continue
         v, t = d
